@@ -197,6 +197,18 @@ Proof.
 Qed.
 Print Assumptions C08_ledger_sum.
 
+(** The instrument's kind, contract size and settlement asset are irrelevant: spot, perpetual,
+    future and option instruments with any contract size are treated alike, the amounts are
+    price x quantity (buy) resp. quantity (sell) plus fees, exactly as the property states. *)
+Theorem C08_instrument_kind_irrelevant : forall cfg ks,
+  (forall st req, open_order (with_kinds cfg ks) st req = open_order cfg st req) /\
+  (forall ost rq, run_request (with_kinds cfg ks) ost rq = run_request cfg ost rq) /\
+  (forall rqs ost, run (with_kinds cfg ks) ost rqs = run cfg ost rqs) /\
+  (forall req, spec_spent (with_kinds cfg ks) req = spec_spent cfg req) /\
+  (forall led req, spec_accepts (with_kinds cfg ks) led req = spec_accepts cfg led req).
+Proof. exact kinds_irrelevant. Qed.
+Print Assumptions C08_instrument_kind_irrelevant.
+
 (** The code's [value + value x fee] is [value x (1 + fee)], the two fee computations (buy:
     on the quote value; sell: on the base quantity, converted at the order price) coincide, and
     [|q| = q] on the property's domain. *)
@@ -223,7 +235,8 @@ Print Assumptions C08_oracle_no_stricter_than_model.
     balance exactly, a sell one unit too large, a limit order and an unknown instrument runs
     through the request loop and ends in the expected non-trivial state. *)
 Definition c08_cfg : config :=
-  mkCfg [(0, (0, 1)); (1, (2, 1)); (2, (0, 2))]%N (qc 1 2) 10.
+  mkCfg [(0, (0, 1)); (1, (2, 1)); (2, (0, 2))]%N (qc 1 2) 10
+        [(1%N, mkKind 1 (qc 1 2) (Some 1%N)); (2%N, mkKind 3 (qc 100 0) (Some 0%N))].
 Definition c08_init : state :=
   mkState [(0%N, mkBal (qc 101 2) (qc 101 2) 0); (1%N, mkBal (qc 1000 0) (qc 1000 0) 0);
            (2%N, mkBal (qc 5 0) (qc 5 0) 0)] 7 0 [] [] [].
